@@ -178,6 +178,27 @@ Theorem c18_encoding_independent :
 Proof. exact encoding_independent. Qed.
 Print Assumptions c18_encoding_independent.
 
+(* Pause -> resume (LocalBackend._resume_trial: the reports already in std.out are counted
+   as seen by PARSING them, seen = len(retrieve(...))).  For every stream cs1 of the paused
+   run and every stream cs2 the resumed run appends — payloads may contain the tag, the whole
+   tag prefix, braces — a poll after the resume returns exactly the payloads of the new run. *)
+Theorem c18_resume_delivers_new_run :
+  forall cs1 cs2 : list chunk, noise_ok (cs1 ++ cs2) = true -> payloads_ok (cs1 ++ cs2) = true ->
+    seen_at_resume (render cs1) = length (payloads_of cs1) /\
+    poll_after_resume (render cs1) (render cs1 ++ render cs2) = payloads_of cs2.
+Proof. exact resume_delivers_new_run. Qed.
+Print Assumptions c18_resume_delivers_new_run.
+
+(* counting occurrences of the tag prefix in the text instead is wrong: a payload with the
+   tag inside a string value counts twice and the first report of the resumed run is lost *)
+Theorem c18_resume_count_tags_refuted :
+  exists cs1 cs2, noise_ok (cs1 ++ cs2) = true /\ payloads_ok (cs1 ++ cs2) = true /\
+    count_pre (render cs1) = 2%nat /\ length (payloads_of cs1) = 1%nat /\
+    skipn (count_pre (render cs1)) (poll_model (render cs1 ++ render cs2)) = [] /\
+    payloads_of cs2 <> [].
+Proof. exact resume_count_tags_refuted. Qed.
+Print Assumptions c18_resume_count_tags_refuted.
+
 (* DESIGN's "rejected reports do not advance the counter" is FALSE of the code
    for reports rejected by serialisation: self.iter += 1 runs before
    _report_logger.  (The property itself only asks for strictly increasing.) *)
